@@ -97,8 +97,9 @@ BigCases ==
    \cup Tag("big1", {Bin(op, l, CE(c)) : op \in BinOps, c \in BigC, l \in BigL})
    \cup Tag("big2", {Bin(op, CE(c), CE(d)) : op \in BinOps, c \in BigC, d \in BigC})
    \cup Tag("huge", {Bin(op, CE(Huge), l) : op \in BinOps, l \in {CE(Z(3)), CE(NV(1, 3))}})
-   \cup Tag("huge", {Bin(op, CE(Huge), FlE(f)) : op \in {"plus", "minus", "times"}, f \in {"iu", "ib", "rb"}})
-   \cup Tag("huge", {Bin(op, FlE(f), CE(Huge)) : op \in BinOps, f \in {"iu", "ib", "rb"}})
+   \cup Tag("huge", {Bin(op, CE(Huge), FlE(f)) : op \in {"plus", "minus", "times"}, f \in {"iu", "iz"}})
+   \cup Tag("huge", {Bin(op, FlE(f), CE(Huge)) : op \in {"plus", "minus", "times"}, f \in {"iu", "iz"}})
+   \cup Tag("huge", {Bin("times", FlE("rb"), CE(Huge)), Bin("times", CE(Huge), FlE("rb"))})
 
 ASSUME ndJsonSerialize(IOEnv.OUT_DECL, <<Decl>>)
 ASSUME ndJsonSerialize(IOEnv.OUT_NUM, SX!SetToSeq(NumCases))
